@@ -13,7 +13,7 @@ cd "$wt" || exit 2
 git apply "$patch" || { echo "patch does not apply"; exit 2; }
 export GOFLAGS=-mod=mod GOPROXY=off GOSUMDB=off
 go build ./... && go test -vet=off -count=1 ./util/... >/dev/null 2>&1 && echo "seed $id: builds, baseline passes" || echo "seed $id: BUILD/BASELINE FAILS"
-cd /verif
+cd "$(dirname "$(readlink -f "$0")")/.."
 export VERIF_REPO=$wt VERIF_EVIDENCE_DIR=/tmp/seedtest-evidence VERIF_REPLAY_DIR=/tmp/seedtest-replays
 mkdir -p $VERIF_EVIDENCE_DIR $VERIF_REPLAY_DIR
 for p in "$@"; do
